@@ -138,3 +138,19 @@ JOBS['C20'] = [
      'defs': {'quick': {'K': 2, 'NFILES': 17, 'PREOPEN': 16}, 'thorough': {'K': 3, 'NFILES': 17, 'PREOPEN': 16}},
      'expect_reach': ['end', 'table-full', 'switched', 'revisited', 'deleted', 'evicted'], 'timeout': {'quick': 280, 'thorough': 1700}},
 ]
+
+# ---------------------------------------------------------------- C10
+META['C10'] = {
+    'bounds': {'quick': '90 pattern templates (literals, ., brackets with ranges/negation/classes, ^ $ \\< \\>, groups, |, * + ? {m,n}, nesting depth 2, up to 4 groups) with symbolic placeholder characters over {a A 1 U+00E9} x all newline-terminated lines of <=2 characters over that alphabet plus space x icase x notbol x noteol; sets of 2-3 patterns',
+               'thorough': 'lines of <=3 characters, alphabet {a b A 1 _ U+00E9 U+00C9 space}'},
+    'outside': 'lines longer than the bound; patterns outside the templates (C11 covers their safety); completeness is asserted only on paths where fewer than 256 re_rec frames were live (engine-side observation instead of a source hook)',
+    'assumptions': ['reference semantics: leftmost start, greedy quantifiers, left-biased alternation, captures of the last iteration (harness/ref_re.h); case folding of ASCII letters only, as in the C locale'],
+}
+JOBS['C10'] = [
+    {'name': 'templates', 'harness': 'c10_re.c', 'units': ['rset', 'regex', 'sbuf', 'uc'], 'track': 're_rec',
+     'defs': {'quick': {'LL': 2}, 'thorough': {'LL': 3, 'WIDE': 1}}, 'variants': [{'TSET': i} for i in range(5)],
+     'expect_reach': ['end', 'found', 'notfound', 'agree'], 'timeout': {'quick': 280, 'thorough': 1700}, 'max_steps': 5000000},
+    {'name': 'nullable_loops', 'harness': 'c10_re.c', 'units': ['rset', 'regex', 'sbuf', 'uc'], 'track': 're_rec', 'tiers': ['thorough'],
+     'defs': {'LL': 1, 'TSET': 5},
+     'expect_reach': ['end', 'found', 'notfound'], 'timeout': {'quick': 280, 'thorough': 1700}, 'max_steps': 200000000, 'native_timeout': 60},
+]
